@@ -12,7 +12,7 @@ THEOREMS = ["C19_union_sound", "C19_union_sound_any_fuel", "C19_fuel_adequate", 
             "C19_insert_sound", "C19_negidx_insert_refuted", "C19_insert_coerce_required_refuted",
             "C19_insert_optional_hole_refuted",
             "C19_remove_sound", "C19_remove_shift_refuted", "C19_remove_inside_unknown_refuted",
-            "C19_remove_negidx_panic_refuted", "C19_merge_union_sound", "C19_merge_overwrite_refuted",
+            "C19_remove_single_segment_no_panic", "C19_remove_negidx_below_known_fixed", "C19_merge_union_sound", "C19_merge_overwrite_refuted",
             "C19_domains_nonvacuous"]
 IMPORTS = ("From Coq Require Import List ZArith String.\n"
            "From VRL Require Import Base.Bytes Base.Value Base.Lit Model.ValueCrud Model.Kind Model.KindCrud Model.KindDomains Corr.C19.\n"
